@@ -334,7 +334,8 @@ type BlipFill struct {
 // Blip 二进制图片
 type Blip struct {
 	XMLName xml.Name `xml:"a:blip"`
-	Embed   string   `xml:"r:embed,attr"`
+	Embed   string   `xml:"r:embed,attr,omitempty"`
+	Link    string   `xml:"r:link,attr,omitempty"` // 链接的图片（关系的 TargetMode 为 External）
 }
 
 // Stretch 拉伸
